@@ -215,10 +215,70 @@ def judge_inplace(acc, fxm, fym, part):
             acc.outcome('inplace_ok')
 
 
+def judge_out(acc, fxm, fym, xs, ys, part):
+    """x op y stored into a caller-supplied destination (out=, numpy out=, config.op_out) that has more integer and fraction bits than
+    the optimal result: // and % must still be exact, / within one LSB of the destination"""
+    ys = [b for b in ys if b != 0]
+    if not xs or not ys:
+        return
+    for op in OPS:
+        fz = result_fmt(op, fxm, fym)
+        if fz.n_word < 1 or fz.n_word > 40:
+            continue
+        dfmt = Fmt(True, fz.n_word + 6, fz.n_frac + 3)
+        for via in ('out=', 'np_out', 'op_out'):
+            case = {'part': part, 'outdest': True, 'fx': list(fxm), 'fy': list(fym), 'xs': list(xs), 'ys': list(ys), 'op': op, 'via': via}
+            acc.evaluations += len(xs) * len(ys)
+            acc.transitions += 1
+            acc.nontrivial += 1
+            try:
+                x = build(fxm, xs, (len(xs), 1), 'raw')
+                y = build(fym, ys, (1, len(ys)), 'raw')
+                t = Fxp(np.zeros((len(xs), len(ys))), dfmt.signed, dfmt.n_word, dfmt.n_frac)
+                if via == 'out=':
+                    z = run_op_kw(op, x, y, out=t)
+                elif via == 'np_out':
+                    z = {'/': np.true_divide, '//': np.floor_divide, '%': np.mod}[op](x, y, out=t)
+                else:
+                    x.config.op_out = t
+                    z = (x / y) if op == '/' else ((x // y) if op == '//' else (x % y))
+                got = [dfmt.value(c) for c in codes(z)]
+            except Exception as e:
+                acc.violation('exception', case, '%s %s %s into %s via %s raised %r' % (fxm.dtype, op, fym.dtype, dfmt.dtype, via, e),
+                              {'part': part, 'op': op, 'via': via})
+                continue
+            lsb = Fraction(2) ** (-dfmt.n_frac)
+            k = 0
+            bad = None
+            for a in xs:
+                for b in ys:
+                    xv, yv = fxm.value(a), fym.value(b)
+                    q = xv / yv
+                    if op == '/':
+                        ok = abs(got[k] - q) < lsb and ((q / lsb).denominator != 1 or got[k] == q)
+                    elif op == '//':
+                        ok = got[k] == floor_frac(q)
+                    else:
+                        ok = got[k] == xv - yv * floor_frac(q)
+                    if not ok and bad is None:
+                        bad = (a, b, got[k])
+                    k += 1
+            if bad or z is not t:
+                acc.violation('out', case, '%s code %d %s %s code %d stored into %s via %s gives %s' % (fxm.dtype, bad[0] if bad else 0, op, fym.dtype,
+                                                                                                       bad[1] if bad else 0, dfmt.dtype, via, bad[2] if bad else 'another object'),
+                              {'part': part, 'op': op, 'via': via})
+            else:
+                acc.outcome('out_ok')
+
+
+def run_op_kw(op, x, y, **kw):
+    return {'/': fx.truediv, '//': fx.floordiv, '%': fx.mod}[op](x, y, **kw)
+
+
 def bounds(tier, seed):
     k = 4 if tier == 'quick' else 5
     return {'small_scope': 'all ordered pairs of formats n_word<=%d, n_frac 0..n_word, both signednesses (%d formats) x every code pair with divisor != 0 '
-                           '(broadcast) x {/, //, %%} x {raw, repr} x roundings {trunc, floor, around}; operands built by value; in-place element assignment between two '
+                           '(broadcast) x {/, //, %%} x {raw, repr} x roundings {trunc, floor, around}; operands built by value; results stored into a wider, finer destination via out= / numpy out= / config.op_out (n_word<=3); in-place element assignment between two '
                            'operations on the same objects; scalar route for n_word<=%d'
                            % (k, len(formats(k)), 2 if tier == 'quick' else 3),
             'boundary': 'format pairs n_word in %s x n_frac {0, mid, n} with result word<=53: dividend in {lo, lo+1, -1, 1, hi-1, hi}, divisor in '
@@ -253,6 +313,8 @@ def run_shard(sh):
             ys = list(range(fym.lo, fym.hi + 1))
             judge_all(acc, fxm, fym, xs, ys, 'S', scalars=(fxm.n_word <= sh['ks'] and fym.n_word <= sh['ks']))
             judge_inplace(acc, fxm, fym, 'S')
+            if fxm.n_word <= 3 and fym.n_word <= 3:
+                judge_out(acc, fxm, fym, xs, ys, 'S')
     else:
         for fxm in [f for f in bfmts(sh['nws']) if f.n_word == sh['nw']]:
             xs = sorted({fxm.lo, fxm.lo + 1, 1, fxm.hi - 1, fxm.hi} | ({-1} if fxm.signed else set()))
@@ -266,6 +328,9 @@ def replay(case):
     reset_class_state()
     acc = Acc()
     fxm, fym = Fmt(*case['fx']), Fmt(*case['fy'])
+    if case.get('outdest'):
+        judge_out(acc, fxm, fym, case['xs'], case['ys'], case['part'])
+        return [v for v in acc.violations if v['case'].get('op') == case['op'] and v['case'].get('via') == case['via']]
     if case.get('inplace'):
         judge_inplace(acc, fxm, fym, case['part'])
         return [v for v in acc.violations if v['case'].get('op') == case['op'] and v['case'].get('method') == case['method']]
